@@ -18,6 +18,8 @@ type progCase struct {
 	Prog []refmodel.Stmt `json:"prog"`
 	// Strict: the router is built with StrictLastSlash (trailing slashes of prefixes and paths are significant)
 	Strict bool `json:"strict_last_slash,omitempty"`
+	// Cache: the router caches dynamic matches (capacity 8); every route is requested a second time (answered from the cache)
+	Cache bool `json:"route_cache,omitempty"`
 }
 
 // ---- model interpretation ---------------------------------------------------
@@ -59,6 +61,7 @@ func modelProgram(prog []refmodel.Stmt, strict bool) *mResult {
 		res.Routes = append(res.Routes, mRoute{Method: method, Path: p, Req: concrete(p), Chain: chain, Bare: bare})
 	}
 	cat := func(a []int, b ...int) []int { return append(append([]int{}, a...), b...) }
+	var sharedIDs []int
 	walk = func(stmts []refmodel.Stmt, prefix string, group []int, inGroup bool) {
 		for _, s := range stmts {
 			switch s.Kind {
@@ -70,7 +73,16 @@ func modelProgram(prog []refmodel.Stmt, strict bool) *mResult {
 					res.Global = append(res.Global, h...)
 				}
 			case "group":
-				mw := ids.Take(s.K)
+				var mw []int
+				if s.Via == "shared" {
+					// all "shared" groups of a program are given ONE caller-owned slice (allocated at the first of them)
+					if sharedIDs == nil {
+						sharedIDs = ids.Take(s.K)
+					}
+					mw = sharedIDs
+				} else {
+					mw = ids.Take(s.K)
+				}
 				walk(s.Body, prefix+refmodel.Norm(s.Prefix, strict), cat(group, mw...), true)
 			case "route":
 				mids := ids.Take(s.K)
@@ -165,7 +177,7 @@ type progRun_ struct {
 	rts       []*rux.Route // the registered routes in model order (nil where the harness holds no handle)
 }
 
-func execProgram(prog []refmodel.Stmt, sentinel, strict bool) (pr *progRun_, pv any) {
+func execProgram(prog []refmodel.Stmt, sentinel, strict bool, more ...func(*rux.Router)) (pr *progRun_, pv any) {
 	pr = &progRun_{}
 	ids := &refmodel.IDGen{}
 	rn, cn := 0, 0
@@ -193,11 +205,12 @@ func execProgram(prog []refmodel.Stmt, sentinel, strict bool) (pr *progRun_, pv 
 		return s
 	}
 	var walk func(stmts []refmodel.Stmt, top bool)
-	gprefix := "" // the concatenated normal forms of the enclosing groups' prefixes
+	var sharedMW []rux.HandlerFunc // the one caller-owned slice all "shared" groups are given
+	gprefix := ""                  // the concatenated normal forms of the enclosing groups' prefixes
 	pv = try(func() {
-		r := rux.New(rux.HandleMethodNotAllowed)
+		r := rux.New(append([]func(*rux.Router){rux.HandleMethodNotAllowed}, more...)...)
 		if strict {
-			r = rux.New(rux.HandleMethodNotAllowed, rux.StrictLastSlash)
+			r = rux.New(append([]func(*rux.Router){rux.HandleMethodNotAllowed, rux.StrictLastSlash}, more...)...)
 		}
 		pr.r = r
 		walk = func(stmts []refmodel.Stmt, top bool) {
@@ -206,7 +219,15 @@ func execProgram(prog []refmodel.Stmt, sentinel, strict bool) (pr *progRun_, pv 
 				case "use":
 					r.Use(mk(s.K)...)
 				case "group":
-					mw := spare(mk(s.K), s.Spare)
+					var mw []rux.HandlerFunc
+					if s.Via == "shared" {
+						if sharedMW == nil {
+							sharedMW = mk(s.K)
+						}
+						mw = sharedMW
+					} else {
+						mw = spare(mk(s.K), s.Spare)
+					}
 					body := s.Body
 					saved := gprefix
 					gprefix += refmodel.Norm(s.Prefix, strict)
@@ -286,7 +307,7 @@ func progString(prog []refmodel.Stmt) string {
 			}
 			switch s.Kind {
 			case "group":
-				fmt.Fprintf(&sb, "Group(%q,mw=%d%s){", s.Prefix, s.K, map[bool]string{true: ",spare-cap", false: ""}[s.Spare])
+				fmt.Fprintf(&sb, "Group(%q,mw=%d%s%s){", s.Prefix, s.K, map[bool]string{true: ",spare-cap", false: ""}[s.Spare], map[bool]string{true: ",the-one-caller-owned-slice", false: ""}[s.Via == "shared"])
 				w(s.Body)
 				sb.WriteString("}")
 			case "route":
@@ -310,10 +331,17 @@ func progRun(c progCase, mode string, st *fw.Stats) []fw.Viol {
 		}
 	}
 	m := modelProgram(c.Prog, c.Strict)
-	pr, pv := execProgram(c.Prog, mode == "C12", c.Strict)
+	var more []func(*rux.Router)
+	if c.Cache {
+		more = append(more, rux.CachingWithNum(8))
+	}
+	pr, pv := execProgram(c.Prog, mode == "C12", c.Strict, more...)
 	ps := progString(c.Prog)
 	if c.Strict {
 		ps += " | on a StrictLastSlash router"
+	}
+	if c.Cache {
+		ps += " | on a router that caches dynamic matches"
 	}
 	if pv != nil {
 		add("program:panic", fmt.Sprintf("program [%s]: registration panicked: %v", ps, pv))
@@ -351,12 +379,21 @@ func progRun(c progCase, mode string, st *fw.Stats) []fw.Viol {
 		pv := try(func() { r.ServeHTTP(w, httptest.NewRequest(method, path, nil)) })
 		return append([]refmodel.Event(nil), pr.log...), w.Code, pv
 	}
+	if c.Cache {
+		// first pass: every route is requested once (dynamic matches enter the cache); the pass below is then the second
+		for _, rt := range m.Routes {
+			request(rt.Method, rt.Req)
+		}
+	}
 	for i, rt := range m.Routes {
 		st.Evals++
 		chain := append(append([]int{}, m.Global...), rt.Chain...)
 		want := chainEvents(chain)
 		got, _, pv := request(rt.Method, rt.Req)
 		what := fmt.Sprintf("program [%s]: route #%d %s %s", ps, i, rt.Method, rt.Path)
+		if c.Cache {
+			what += " (second request)"
+		}
 		if pv != nil {
 			add("request:panic", fmt.Sprintf("%s: ServeHTTP panicked: %v", what, pv))
 			continue
@@ -629,7 +666,37 @@ func progHasKind(prog []refmodel.Stmt, kind string) bool {
 	return false
 }
 
+// progSpecials: a few programs beyond the statement bound, built around one caller-owned middleware slice that is
+// passed to several groups (with groups that call Use in between)
+func progSpecials() [][]refmodel.Stmt {
+	route := refmodel.Stmt{Kind: "route", K: 0}
+	route1 := refmodel.Stmt{Kind: "route", K: 1, K2: 1}
+	use := refmodel.Stmt{Kind: "use", K: 1}
+	sh := func(prefix string, k int, body ...refmodel.Stmt) refmodel.Stmt {
+		return refmodel.Stmt{Kind: "group", Prefix: prefix, K: k, Via: "shared", Body: body}
+	}
+	g := func(prefix string, k int, body ...refmodel.Stmt) refmodel.Stmt {
+		return refmodel.Stmt{Kind: "group", Prefix: prefix, K: k, Body: body}
+	}
+	var out [][]refmodel.Stmt
+	for _, k := range []int{1, 2, 3} {
+		out = append(out,
+			[]refmodel.Stmt{sh("/s1", k, route), g("/g", 0, use, route), sh("/s2", k, route)},
+			[]refmodel.Stmt{sh("/s1", k), g("/g", 0, use, use, route1), sh("/s2", k, route1), route},
+			[]refmodel.Stmt{sh("/s1", k, route), g("/g", 0, use), g("/h", 0, use, route), sh("/s2", k, route), sh("/s3", k, use, route)},
+			[]refmodel.Stmt{g("/o", 1, sh("/s1", k, route), g("/g", 0, use, route), sh("/s2", k, route))},
+			[]refmodel.Stmt{sh("/s1", k, route), g("/g", 1, use, route), sh("/s2", k, route)},
+			[]refmodel.Stmt{sh("/s1", k, g("/in", 0, use, route)), g("/g", 0, use, route), sh("/s2", k, route)},
+		)
+	}
+	return out
+}
+
 func progGen(tier, mode string, emit func(progCase)) {
+	for _, p := range progSpecials() {
+		emit(progCase{Prog: p})
+		emit(progCase{Prog: p, Strict: true})
+	}
 	n := 4
 	if tier == "thorough" {
 		n = 5
@@ -647,6 +714,10 @@ func progGen(tier, mode string, emit func(progCase)) {
 		emit(progCase{Prog: append([]refmodel.Stmt(nil), body...), Strict: strict})
 		if mode == "C12" && !strict && used <= 3 && progHasKind(body, "group") {
 			emit(progCase{Prog: append([]refmodel.Stmt(nil), body...), Strict: true})
+		}
+		// programs with dynamic routes (controllers, resources) also on a caching router, every route requested twice
+		if !strict && used <= 3 && (progHasKind(body, "controller") || progHasKind(body, "resource")) {
+			emit(progCase{Prog: append([]refmodel.Stmt(nil), body...), Cache: true})
 		}
 	})
 }
